@@ -111,9 +111,8 @@ def stepAck (σ : Sched) (raw : Raw) (amount : Nat) (f : AFrame) : AStep → AFr
     let st := { f.st with ranges := f.st.ranges + 1 }
     match decodeAck σ f.st.ranges raw with
     | none => (⟨st, f.ack⟩, some "inner-unmarshal")
-    | some none => (⟨{ st with gas := st.gas + 1 }, f.ack⟩, some "invalid-type")
-    | some (some (.result _)) => (⟨{ st with gas := st.gas + 1 }, f.ack⟩, none)
     | some (some (.error _)) => (⟨{ st with gas := st.gas + 10, bankRefund := st.bankRefund + amount }, f.ack⟩, none)
+    | some _ => (⟨{ st with gas := st.gas + 1 }, f.ack⟩, none)   -- result arm, or no arm at all: "succeeded", nothing to do
   | .dataDecode => (f, none)
   | .hook =>
     -- the keeper is handed the middleware's decoded value (zero gas configuration)
